@@ -322,7 +322,63 @@ Lemma get_elem_refines {A} (s : conc A) r c : wf s -> get_c s (Elem r c) = get_s
 Proof. intros H. cbn [get_c get_s]. rewrite (gather_spec _ _ H). reflexivity. Qed.
 
 Lemma get_pairs_refines {A} (s : conc A) rs cs : wf s -> get_c s (Pairs rs cs) = get_s (abs s) (Pairs rs cs).
-Proof. intros H. cbn [get_c get_s]. rewrite (gather_spec _ _ H). reflexivity. Qed.
+Proof.
+  intros H. cbn [get_c get_s]. destruct (bpairs rs cs) as [ps|]; [|reflexivity].
+  rewrite (gather_spec _ _ H). reflexivity.
+Qed.
+
+(* broadcasting of the two index vectors: a one-entry column vector reads what the scalar column reads, a
+   one-entry row vector what the scalar row reads (for index vectors of any length, also on the list of rows) *)
+Lemma bpairs_col (rs : list Z) (c : Z) : bpairs rs [c] = Some (map (fun r => (r, c)) rs).
+Proof.
+  unfold bpairs. destruct rs as [|r [|r' t]]; cbn [length Nat.eqb]; reflexivity.
+Qed.
+
+Lemma bpairs_row (r : Z) (cs : list Z) : bpairs [r] cs = Some (map (fun c => (r, c)) cs).
+Proof.
+  unfold bpairs. destruct cs as [|c [|c' t]]; cbn [length Nat.eqb]; reflexivity.
+Qed.
+
+Lemma bpairs_same (rs cs : list Z) : length rs = length cs -> bpairs rs cs = Some (combine rs cs).
+Proof. intros H. unfold bpairs. rewrite H, Nat.eqb_refl. reflexivity. Qed.
+
+Lemma bpairs_none (rs cs : list Z) :
+  length rs <> length cs -> length rs <> 1%nat -> length cs <> 1%nat -> bpairs rs cs = None.
+Proof.
+  intros H Hr Hc. unfold bpairs. destruct (Nat.eqb_spec (length rs) (length cs)) as [E|_]; [contradiction|].
+  destruct rs as [|r [|r' t]], cs as [|c [|c' u]]; cbn [length] in *; try reflexivity; contradiction.
+Qed.
+
+Lemma get_pairs_broadcast_col {A} (s : conc A) rs c : get_c s (Pairs rs [c]) = get_c s (PairsScalar rs c).
+Proof. cbn [get_c]. rewrite bpairs_col. reflexivity. Qed.
+
+Lemma get_pairs_broadcast_row {A} (s : conc A) r cs : get_c s (Pairs [r] cs) = get_c s (ElemList r cs).
+Proof. cbn [get_c]. rewrite bpairs_row. reflexivity. Qed.
+
+Lemma get_s_pairs_broadcast_col {A} (rows : list (list A)) rs c :
+  get_s rows (Pairs rs [c]) = get_s rows (PairsScalar rs c).
+Proof. cbn [get_s]. rewrite bpairs_col, map_opt_map. reflexivity. Qed.
+
+Lemma get_s_pairs_broadcast_row {A} (rows : list (list A)) r cs :
+  get_s rows (Pairs [r] cs) = get_s rows (ElemList r cs).
+Proof. cbn [get_s]. rewrite bpairs_row, map_opt_map. reflexivity. Qed.
+
+Lemma get_pairs_unequal_raise {A} (s : conc A) (rs cs : list Z) :
+  length rs <> length cs -> length rs <> 1%nat -> length cs <> 1%nat ->
+  get_c s (Pairs rs cs) = Err /\ get_s (abs s) (Pairs rs cs) = Err.
+Proof.
+  intros H Hr Hc. cbn [get_c get_s]. rewrite (bpairs_none _ _ H Hr Hc). split; reflexivity.
+Qed.
+
+(* how many elements a broadcast pair reads: one per entry of the longer vector (non-empty index vectors) *)
+Lemma bpairs_length (rs cs : list Z) ps :
+  rs <> [] -> cs <> [] -> bpairs rs cs = Some ps -> length ps = Nat.max (length rs) (length cs).
+Proof.
+  intros Hr Hc. unfold bpairs. destruct (Nat.eqb_spec (length rs) (length cs)) as [E|_].
+  - intros H. injection H as <-. rewrite combine_length, E. lia.
+  - destruct rs as [|r [|r' t]], cs as [|c [|c' u]]; intros H; try discriminate; try contradiction;
+      injection H as <-; cbn [length map]; rewrite ?map_length; cbn [length]; lia.
+Qed.
 
 Lemma get_pairs_scalar_refines {A} (s : conc A) rs c :
   wf s -> get_c s (PairsScalar rs c) = get_s (abs s) (PairsScalar rs c).
